@@ -25,6 +25,21 @@ func (s Schema) TypesList() map[string]Type {
 	return s.types
 }
 
+// WithOwnTypes returns a schema with the same root node and a private copy of
+// the table of types. Types added to the returned schema are not seen through
+// the original one (which may be shared: a schema added as a type to other
+// schemas is reachable from all of them).
+func (s Schema) WithOwnTypes() *Schema {
+	types := make(map[string]Type, len(s.types))
+	for n, t := range s.types {
+		types[n] = t
+	}
+	return &Schema{
+		types:    types,
+		rootNode: s.rootNode,
+	}
+}
+
 // MustType returns *Schema or panic if not found.
 // Deprecated: use Schema.MustType instead
 func (s Schema) MustType(name string) *Schema {
